@@ -612,6 +612,10 @@ func (env *Env) evalCall(n *ECall) TV {
 		e.declareFun("runes_of", []Sort{SStr}, ArraySort(SInt, SInt))
 		e.declareFun("str_from_runes", []Sort{ArraySort(SInt, SInt), SInt, SInt}, SStr)
 		return TV{T: App(SStr, "str_from_runes", App(ArraySort(SInt, SInt), "runes_of", arg(0).T), arg(1).T, Sub(arg(2).T, arg(1).T)), Typ: types.Typ[types.String]}
+	case "runestr":
+		// runestr(s, i): string([]rune(s)[i]), the i-th character of s as a string
+		e.declareFun("runes_of", []Sort{SStr}, ArraySort(SInt, SInt))
+		return TV{T: App(SStr, "str_from_rune", Select(App(ArraySort(SInt, SInt), "runes_of", arg(0).T), arg(1).T)), Typ: types.Typ[types.String]}
 	case "prefixat":
 		// prefixat(s, i, "lit"): the bytes of lit stand at s[i:], i.e. strings.HasPrefix(s[i:], lit)
 		sx, ok := n.Args[2].(*EStr)
